@@ -16,8 +16,8 @@
    manifest chunk, a renamed entry is a file).  Outside c20_quiet the property rests on the
    correspondence check, whose triggers are per offending chunk (see c20_failures_complete ff.). *)
 From Coq Require Import List NArith ZArith Bool String.
-From SW Require Import model.Chunks model.HardLink model.FilerGC
-  proof.FilerGCBase proof.FilerGCMain.
+From SW Require Import model.Chunks model.HardLink model.FilerGC model.FilerGCWire
+  proof.FilerGCBase proof.FilerGCMain proof.FilerGCWire.
 Import ListNotations.
 
 (* ---------- one step, from any link-free state with exclusive chunk ownership ---------- *)
@@ -133,3 +133,89 @@ Example c20_example :
   final g_ev empty_st g_clean = empty_st.
 Proof. exact clean_is_quiet. Qed.
 Print Assumptions c20_example.
+
+(* ---------- chunk references have two wire encodings (model/FilerGCWire.v) ----------
+   A chunk id is the decoded (volume id, key, cookie); a request may name it by the file_id string, by the
+   fid object, or by both.  The specification above never sees an encoding; these theorems say that the
+   garbage decisions do not either. *)
+
+(* DoMinusChunks / deleteChunksIfNotNew on wire chunks: the garbage list and the ids handed to the sink are
+   functions of the DECODED lists - whatever the encodings of the old and the new list *)
+Theorem c20_garbage_by_decoded_ids : forall a a' b b',
+  map decode a = map decode a' -> map decode b = map decode b' ->
+  map decode (do_minus_w a b) = map decode (do_minus_w a' b') /\
+  sink_ids_w (do_minus_w a b) = sink_ids_w (do_minus_w a' b').
+Proof. exact do_minus_w_by_ids. Qed.
+Print Assumptions c20_garbage_by_decoded_ids.
+
+Theorem c20_garbage_is_decoded_minus : forall a b,
+  sink_ids_w (do_minus_w a b) = fids (do_minus (map decode a) (map decode b)).
+Proof. exact sink_do_minus. Qed.
+Print Assumptions c20_garbage_is_decoded_minus.
+
+Theorem c20_garbage_reencode : forall (e1 e2 e3 e4 : N -> N) a b,
+  sink_ids_w (do_minus_w (map (fun c => encode (e1 (c_fid c)) c) a) (map (fun c => encode (e2 (c_fid c)) c) b)) =
+  sink_ids_w (do_minus_w (map (fun c => encode (e3 (c_fid c)) c) a) (map (fun c => encode (e4 (c_fid c)) c) b)).
+Proof. exact do_minus_reencode. Qed.
+Print Assumptions c20_garbage_reencode.
+
+(* the statement has content: the same loop keyed by the raw string field reports a kept chunk as garbage
+   as soon as it is sent with its fid object only *)
+Theorem c20_raw_key_not_invariant :
+  map decode wb0 = map decode wb1 /\
+  sink_ids_w (do_minus_raw wa wb0) = [2%N] /\ sink_ids_w (do_minus_raw wa wb1) = [1%N; 2%N] /\
+  sink_ids_w (do_minus_w wa wb0) = [2%N] /\ sink_ids_w (do_minus_w wa wb1) = [2%N].
+Proof. exact raw_key_not_invariant. Qed.
+Print Assumptions c20_raw_key_not_invariant.
+
+(* the whole step with the encodings of the request as an input (step_w).  "The outcome depends on the decoded
+   request only" is REFUTED by the code as it is: UpdateEntry's EqualEntry shortcut compares the chunk messages
+   field by field, so an unchanged entry sent with string-only references is rewritten and the covered chunk 9
+   of the request is scheduled, while the same request with fid objects schedules nothing.  (Both outcomes
+   satisfy the property: the step is inside c20_quiet.) *)
+Theorem c20_encoding_invariance_refuted :
+  sent_matches w_o (w_sn 0) = true /\ sent_matches w_o (w_sn 2) = true /\
+  c20_quiet w_ev w_s w_o = true /\
+  sched_of (step_w w_ev w_s w_o (w_sn 0)) = [] /\ sched_of (step_w w_ev w_s w_o (w_sn 2)) = [9%N] /\
+  enc_visible w_ev w_s w_o (w_sn 0) = false /\ enc_visible w_ev w_s w_o (w_sn 2) = true.
+Proof. exact enc_invariance_refuted. Qed.
+Print Assumptions c20_encoding_invariance_refuted.
+
+(* outside that one decidable spot (an UpdateEntry whose entry equals the stored one and keeps a chunk sent
+   without fid object) state, error class and scheduled ids are those of the decoded request *)
+Theorem c20_encoding_invariance_partial : forall ev s o sn,
+  enc_visible ev s o sn = false -> step_w ev s o sn = step ev s o.
+Proof. exact step_w_eq. Qed.
+Print Assumptions c20_encoding_invariance_partial.
+
+Theorem c20_reencoding_partial : forall ev s o sn1 sn2,
+  enc_visible ev s o sn1 = false -> enc_visible ev s o sn2 = false -> step_w ev s o sn1 = step_w ev s o sn2.
+Proof. exact step_w_enc_invariant. Qed.
+Print Assumptions c20_reencoding_partial.
+
+(* requests whose chunk references all carry the fid object (entries from LookupDirectoryEntry / ListEntries
+   sent back, metadata events) never reach the spot, for any operation and state *)
+Theorem c20_fid_objects_decoded : forall ev ops sns s,
+  forallb all_with_fid sns = true -> run_w ev s ops sns = run ev s ops.
+Proof. exact run_w_eq. Qed.
+Print Assumptions c20_fid_objects_decoded.
+
+(* and the property itself holds for EVERY encoding, the visible spot included *)
+Theorem c20_step_any_encoding_partial : forall ev s o sn, PS s -> Excl s -> c20_quiet ev s o = true ->
+  let r := step_w ev s o sn in
+  step_prop ev s o (refs ev s) (refs ev (st_of r)) (sched_of r) = true /\ PS (st_of r) /\ Excl (st_of r).
+Proof. exact step_prop_quiet_w. Qed.
+Print Assumptions c20_step_any_encoding_partial.
+
+Theorem c20_history_any_encoding_partial : forall ev ops sns,
+  c20_hist_quiet_w ev empty_st ops sns = true -> c20_run_ok_w ev empty_st ops sns = true.
+Proof. exact c20_history_quiet_w. Qed.
+Print Assumptions c20_history_any_encoding_partial.
+
+(* non-vacuity: all three encodings inside the hypothesis, the encoding visible at the last step *)
+Example c20_wire_example :
+  c20_hist_quiet_w w_ev empty_st w_hist w_sns = true /\
+  map sched_of (run_w w_ev empty_st w_hist w_sns) = [[]; []; [1]; [9]]%N /\
+  map sched_of (run w_ev empty_st w_hist) = [[]; []; [1]; []]%N.
+Proof. exact wire_example. Qed.
+Print Assumptions c20_wire_example.
